@@ -18,8 +18,7 @@ from contracts import _common  # noqa: F401  (external handlers: click.echo, sys
 CU = "src/core/cli_utils.py::"
 SF = "src/formatters/sarif.py::"
 
-SeverityT = Rec("Severity", cls="src/core/types.py::Severity")
-SeverityT.fields.update({"name": Str, "value": Str})  # (a field called `name` cannot be passed as a keyword of Rec)
+SeverityT = Rec("Severity", cls="src/core/types.py::Severity", name=Str, value=Str)
 
 
 def _native_severity(fields):
@@ -127,14 +126,21 @@ DESCRIPTIONS = {
 }
 
 
+DEFAULT_URI = "https://github.com/be-wise-be-kind/thai-lint"
+package_version = uf("package_version", [], Str)  # src.__version__ (installed package metadata): an unknown string
+
+
 @contract(SF + "SarifFormatter.__init__", props=["C06"],
           types=dict(self=FormatterT, tool_name=Str, tool_version=Opt(Str), information_uri=Opt(Str)),
           modifies=["self.tool_name", "self.tool_version", "self.information_uri"],
           assumed="stores the tool metadata; the default version is read from the installed package metadata "
                   "(importlib.metadata), which is outside the verified subset. No property clause depends on the values")
 class FormatterInit:
-    def ensures(self, tool_name):
-        return self.tool_name == tool_name
+    def ensures(self, tool_name, tool_version, information_uri):
+        return self.tool_name == tool_name \
+            and self.tool_version == (tool_version if tool_version is not None and len(tool_version) > 0 else package_version()) \
+            and self.information_uri == (information_uri if information_uri is not None and len(information_uri) > 0
+                                         else DEFAULT_URI)
 
 
 def sarif_location(v):
@@ -195,20 +201,25 @@ class CreateRules:
         return result == rules_fold(violations, [], [])
 
     def lemmas_rule_closure(violations):
-        return rules_fold_props(violations, [], [])
+        return fold_ids(violations, [], []) and fold_closed(violations, [])
 
     def ensures_rule_closure(violations, result):
         # property text: "every result's ruleId is declared in the driver's rules" (results are one per violation)
-        return all(v.rule_id in [r["id"] for r in result] for v in violations)
+        return declared_in(violations, [r["id"] for r in result])
 
     def lemmas_rule_ids_unique(violations):
-        return rules_fold_props(violations, [], [])
+        return fold_ids(violations, [], []) and fold_nodup(violations, [])
 
     def ensures_rule_ids_unique(violations, result):
         return nodup([r["id"] for r in result])
 
-    def inv0(violations, rules, seen_rule_ids, rest):
-        return rules_fold(violations, [], []) == rules_fold(rest, added(seen_rule_ids), rules)
+    def inv0(self, old, violations, rules, seen_rule_ids, rest):
+        return rules_fold(violations, [], []) == rules_fold(rest, added(seen_rule_ids), rules) and self == old.self
+
+
+def declared_in(vs: Violations, ids: SeqOf(Str)) -> Bool:
+    """The rule id of every violation in vs occurs in ids."""
+    return len(vs) == 0 or (vs[0].rule_id in ids and declared_in(vs[1:], ids))
 
 
 def nodup(s: SeqOf(Str)) -> Bool:
@@ -216,29 +227,229 @@ def nodup(s: SeqOf(Str)) -> Bool:
     return len(s) == 0 or (s[len(s) - 1] not in s[:len(s) - 1] and nodup(s[:len(s) - 1]))
 
 
+@lemma(props=["C06"], types=dict(a=Rules, r=RuleT), name="tail-of-append")
+def tail_snoc(a, r):
+    """Sequence fact used as a hint: head and tail of a non-empty list with one element appended."""
+    return implies(len(a) > 0, (a + [r])[1:] == a[1:] + [r] and (a + [r])[0] == a[0])
+
+
 @lemma(props=["C06"], types=dict(a=Rules, r=RuleT), name="rule-ids-of-append")
 def ids_snoc(a, r):
     """[x.id for x in a + [r]] == [x.id for x in a] + [r.id]   (induction on a)."""
     if len(a) == 0:
         return [x["id"] for x in a + [r]] == [x["id"] for x in a] + [r["id"]]
+    use(tail_snoc, a, r)
     ih(ids_snoc, a[1:], r)
     return [x["id"] for x in a + [r]] == [x["id"] for x in a] + [r["id"]]
 
 
-@lemma(props=["C06"], types=dict(vs=Violations, seen=SeqOf(Str), acc=Rules), name="sarif-rules-closed-and-unique")
-def rules_fold_props(vs, seen, acc):
-    """By induction on vs, for accumulators with ids(acc) == seen and seen duplicate-free: the fold's ids are
-    duplicate-free, start with `seen`, and contain the rule id of every violation in vs."""
-    if not ([x["id"] for x in acc] == seen and nodup(seen)):
-        return True
-    r = rules_fold(vs, seen, acc)
+def id_fold(vs: Violations, seen: SeqOf(Str)) -> SeqOf(Str):
+    """The distinct rule ids of vs in order of first occurrence, appended to `seen`."""
     if len(vs) == 0:
-        return nodup([x["id"] for x in r]) and [x["id"] for x in r][:len(seen)] == seen
+        return seen
     if vs[0].rule_id in seen:
-        ih(rules_fold_props, vs[1:], seen, acc)
+        return id_fold(vs[1:], seen)
+    return id_fold(vs[1:], seen + [vs[0].rule_id])
+
+
+@lemma(props=["C06"], types=dict(vs=Violations, seen=SeqOf(Str), acc=Rules), name="sarif-rule-ids-are-the-distinct-ids")
+def fold_ids(vs, seen, acc):
+    """ids(rules_fold(vs, seen, acc)) == id_fold(vs, seen) whenever ids(acc) == seen   (induction on vs)."""
+    if [x["id"] for x in acc] != seen:
+        return True
+    if len(vs) == 0:
+        return [x["id"] for x in rules_fold(vs, seen, acc)] == id_fold(vs, seen)
+    if vs[0].rule_id in seen:
+        ih(fold_ids, vs[1:], seen, acc)
     else:
         use(ids_snoc, acc, rule_of(vs[0]))
-        ih(rules_fold_props, vs[1:], seen + [vs[0].rule_id], acc + [rule_of(vs[0])])
-    return (nodup([x["id"] for x in r]) and [x["id"] for x in r][:len(seen)] == seen
-            and len([x["id"] for x in r]) >= len(seen)
-            and all(v.rule_id in [x["id"] for x in r] for v in vs))
+        ih(fold_ids, vs[1:], seen + [vs[0].rule_id], acc + [rule_of(vs[0])])
+    return [x["id"] for x in rules_fold(vs, seen, acc)] == id_fold(vs, seen)
+
+
+@lemma(props=["C06"], types=dict(vs=Violations, seen=SeqOf(Str), x=Str), name="id-fold-keeps-seen")
+def fold_mono(vs, seen, x):
+    if len(vs) == 0:
+        return implies(x in seen, x in id_fold(vs, seen))
+    if vs[0].rule_id in seen:
+        ih(fold_mono, vs[1:], seen, x)
+    else:
+        ih(fold_mono, vs[1:], seen + [vs[0].rule_id], x)
+    return implies(x in seen, x in id_fold(vs, seen))
+
+
+@lemma(props=["C06"], types=dict(vs=Violations, seen=SeqOf(Str)), name="sarif-rule-closure")
+def fold_closed(vs, seen):
+    """Every violation's rule id is among the declared ids."""
+    if len(vs) == 0:
+        return declared_in(vs, id_fold(vs, seen))
+    if vs[0].rule_id in seen:
+        use(fold_mono, vs[1:], seen, vs[0].rule_id)
+        ih(fold_closed, vs[1:], seen)
+    else:
+        use(fold_mono, vs[1:], seen + [vs[0].rule_id], vs[0].rule_id)
+        ih(fold_closed, vs[1:], seen + [vs[0].rule_id])
+    return declared_in(vs, id_fold(vs, seen))
+
+
+@lemma(props=["C06"], types=dict(vs=Violations, seen=SeqOf(Str)), name="sarif-rule-ids-unique")
+def fold_nodup(vs, seen):
+    if not nodup(seen):
+        return True
+    if len(vs) == 0:
+        return nodup(id_fold(vs, seen))
+    if vs[0].rule_id in seen:
+        ih(fold_nodup, vs[1:], seen)
+    else:
+        ih(fold_nodup, vs[1:], seen + [vs[0].rule_id])
+    return nodup(id_fold(vs, seen))
+
+
+SARIF_SCHEMA = "https://raw.githubusercontent.com/oasis-tcs/sarif-spec/main/sarif-2.1/schema/sarif-schema-2.1.0.json"
+
+
+def sarif_tool(self, vs):
+    return {"driver": {"name": self.tool_name, "version": self.tool_version, "informationUri": self.information_uri,
+                       "rules": rules_fold(vs, [], [])}}
+
+
+def sarif_run(self, vs):
+    """`results`: one result per violation, in order."""
+    return {"tool": sarif_tool(self, vs), "results": [sarif_result(v) for v in vs]}
+
+
+def sarif_doc(self, vs):
+    return {"version": "2.1.0", "$schema": SARIF_SCHEMA, "runs": [sarif_run(self, vs)]}
+
+
+@contract(SF + "SarifFormatter._create_tool", props=["C06"], types=dict(self=FormatterT, violations=Violations))
+class CreateTool:
+    def value(self, violations):
+        return sarif_tool(self, violations)
+
+
+@contract(SF + "SarifFormatter._create_run", props=["C06"], types=dict(self=FormatterT, violations=Violations))
+class CreateRun:
+    def value(self, violations):
+        return sarif_run(self, violations)
+
+
+@contract(SF + "SarifFormatter.format", props=["C06"], types=dict(self=FormatterT, violations=Violations))
+class FormatSarif:
+    def value(self, violations):
+        return sarif_doc(self, violations)
+
+
+def default_formatter():
+    return mk(FormatterT, tool_name="thai-lint", tool_version=package_version(), information_uri=DEFAULT_URI)
+
+
+
+
+@contract(CU + "_output_sarif", props=["C06"], types=dict(violations=Violations, formatter=FormatterT), modifies=["stdout"])
+class OutputSarif:
+    def ensures_document(violations, stdout, old):
+        # some formatter with the default tool name (its version comes from the package metadata)
+        return stdout == old.stdout + [json.dumps(sarif_doc(default_formatter(), violations), indent=2)]
+
+
+# ------------------------------------------------------------------------------------------ format_violations
+@opaque
+def rendering(vs: Violations, fmt: Str) -> SeqOf(Str):
+    """What `thailint <linter> --format fmt` prints for the violation list vs (the messages passed to click.echo)."""
+    if fmt == "json":
+        return [json.dumps(json_doc(vs), indent=2)]
+    if fmt == "sarif":
+        return [json.dumps(sarif_doc(default_formatter(), vs), indent=2)]
+    return text_rendering(vs)
+
+
+@contract(CU + "format_violations", props=["C06"], types=dict(violations=Violations, output_format=Str), modifies=["stdout"])
+class FormatViolations:
+    def reveals(violations, output_format):
+        return reveal(rendering, violations, output_format)
+
+    def ensures_rendering(violations, output_format, stdout, old):
+        return stdout == old.stdout + rendering(violations, output_format)
+
+
+# ------------------------------------------------------------------------------------------ same violations in all three
+def shown(v):
+    """What a rendering must show of a violation (property text): rule id, file, line, column, message."""
+    return (v.rule_id, v.file_path, v.line, v.column, v.message)
+
+
+def shown_sanitized(v):
+    return (v.rule_id, sanitize(v.file_path), v.line, v.column, sanitize(v.message))
+
+
+def json_shows(e):
+    return (e["rule_id"], e["file_path"], e["line"], e["column"], e["message"])
+
+
+def sarif_shows(r):
+    loc = r["locations"][0]["physicalLocation"]
+    return (r["ruleId"], loc["artifactLocation"]["uri"], loc["region"]["startLine"], loc["region"]["startColumn"] - 1,
+            r["message"]["text"])
+
+
+def sarif_shows_sanitized(r):
+    loc = r["locations"][0]["physicalLocation"]
+    return (r["ruleId"], sanitize(loc["artifactLocation"]["uri"]), loc["region"]["startLine"],
+            loc["region"]["startColumn"] - 1, sanitize(r["message"]["text"]))
+
+
+@lemma(props=["C06"], types=dict(vs=Violations, self=FormatterT), name="sarif-results-show-the-violations")
+def sarif_image(vs, self):
+    """The SARIF results are the image of the violation list: same length, same order, every shown field equal."""
+    rs = sarif_run(self, vs)["results"]
+    if len(vs) == 0:
+        return [sarif_shows(r) for r in rs] == [shown(v) for v in vs]
+    ih(sarif_image, vs[1:], self)
+    return [sarif_shows(r) for r in rs] == [shown(v) for v in vs]
+
+
+@lemma(props=["C06"], types=dict(vs=Violations), name="json-entries-show-the-violations")
+def json_image(vs):
+    """The JSON entries are the image of the violation list (file and message pass through _sanitize_string)."""
+    es = json_doc(vs)["violations"]
+    if len(vs) == 0:
+        return [json_shows(e) for e in es] == [shown_sanitized(v) for v in vs]
+    ih(json_image, vs[1:])
+    return [json_shows(e) for e in es] == [shown_sanitized(v) for v in vs]
+
+
+@lemma(props=["C06"], types=dict(vs=Violations), name="text-one-block-per-violation")
+def text_image(vs):
+    """The text rendering consists of one 3-line block per violation (text_blocks is, by definition, the
+    concatenation of the blocks in list order)."""
+    if len(vs) == 0:
+        return len(text_blocks(vs)) == 0
+    ih(text_image, vs[1:])
+    return len(text_blocks(vs)) == 3 * len(vs)
+
+
+@lemma(props=["C06"], types=dict(self=FormatterT, v=ViolationS), name="sarif-and-json-show-the-same-violation")
+def sarif_same_as_json(self, v):
+    """PROPERTY-LEVEL: the SARIF result and the JSON entry of one violation show the same rule id, file, line, column
+    and message. Expected to FAIL (known finding C06-sarif-unsanitized): JSON and text pass file and message through
+    _sanitize_string, SARIF does not, so they differ for surrogate-escaped paths."""
+    r = call(SF + "SarifFormatter._create_result", self, v)
+    return sarif_shows(r) == json_shows(json_entry(v))
+
+
+@lemma(props=["C06"], types=dict(self=FormatterT, v=ViolationS), name="sarif-and-json-show-the-same-violation-modulo-sanitize")
+def sarif_same_as_json_adjusted(self, v):
+    """Finding-adjusted: equal once SARIF's uri and message text are sanitised the way JSON and text are."""
+    r = call(SF + "SarifFormatter._create_result", self, v)
+    return sarif_shows_sanitized(r) == json_shows(json_entry(v))
+
+
+@lemma(props=["C06"], types=dict(self=FormatterT, v=ViolationS), name="sarif-region-is-one-based")
+def sarif_one_based(self, v):
+    """startLine == line, startColumn == column + 1: 1-based whenever the violation has a 1-based line and a 0-based
+    column (the producers' obligation, C12)."""
+    loc = call(SF + "SarifFormatter._create_location", self, v)
+    reg = loc["physicalLocation"]["region"]
+    return reg["startLine"] == v.line and reg["startColumn"] == v.column + 1 \
+        and implies(v.line >= 1 and v.column >= 0, reg["startLine"] >= 1 and reg["startColumn"] >= 1)
